@@ -10,13 +10,14 @@ open Sugar Sugar.Spec
 /-- what must hold when the procedure answers "allowed" for a non-exempt command under RequirePass -/
 theorem authorize_none_inv (gmatch : Bytes → Bytes → Bool) (auth : Bool) (u : User) (m : CmdMeta)
     (hex : codeExempt m.comm = false) (h : authorize gmatch true auth u m = none) :
-    auth = true ∧ catsIncluded u m = true ∧ catsExcluded u m = false ∧ cmdIncluded u m = true ∧ cmdExcluded u m = false ∧
+    auth = true ∧ u.enabled = true ∧ catsIncluded u m = true ∧ catsExcluded u m = false ∧ cmdIncluded u m = true ∧ cmdExcluded u m = false ∧
     (m.cats.contains (b "pubsub") = true → chanDenied gmatch u m = false) ∧
     (m.cats.contains (b "pubsub") = false → (m.readKeys.isEmpty && m.writeKeys.isEmpty) = false →
        u.noKeys = false ∧ readDenied gmatch u m = false ∧ writeDenied gmatch u m = false) := by
   unfold authorize at h
   rw [hex] at h
   revert h
+  generalize u.enabled = a0
   generalize catsIncluded u m = a1
   generalize catsExcluded u m = a2
   generalize cmdIncluded u m = a3
@@ -27,7 +28,7 @@ theorem authorize_none_inv (gmatch : Bytes → Bytes → Bool) (auth : Bool) (u 
   generalize u.noKeys = a8
   generalize readDenied gmatch u m = a9
   generalize writeDenied gmatch u m = a10
-  cases auth <;> cases a1 <;> cases a2 <;> cases a3 <;> cases a4 <;> cases a5 <;> cases a6 <;> cases a7 <;> cases a8 <;>
+  cases auth <;> cases a0 <;> cases a1 <;> cases a2 <;> cases a3 <;> cases a4 <;> cases a5 <;> cases a6 <;> cases a7 <;> cases a8 <;>
     cases a9 <;> cases a10 <;> simp
 
 theorem mem_of_contains {l : List Bytes} {x : Bytes} (h : l.contains x = true) : x ∈ l := List.contains_iff_mem.mp h
@@ -104,17 +105,242 @@ theorem chans_of (gmatch : Bytes → Bytes → Bool) (u : User) (m : CmdMeta) (h
   cases hi : (u.inclChans.any fun g => gmatch g ch) <;> cases he : (u.exclChans.any fun g => gmatch g ch) <;>
     simp [hi, he] at h1 ⊢
 
-/-- under "all or none" the any-key check of the code is the every-key check of the policy -/
+/-- the key loop of the code (steps 8 and 9: refuse when some key matches no pattern) is the every-key
+    condition of the policy -/
 theorem keys_all_of_not_denied (keys pats : List Bytes) (gmatch : Bytes → Bytes → Bool)
-    (hu : (keys.any fun k => pats.any fun g => gmatch g k) = true → (keys.all fun k => pats.any fun g => gmatch g k) = true)
-    (hd : (!keys.isEmpty && !(keys.any fun k => pats.any fun g => gmatch g k)) = false) :
+    (hd : (keys.any fun k => !(pats.any fun g => gmatch g k)) = false) :
     (keys.all fun k => pats.any fun g => gmatch g k) = true := by
-  cases hk : keys with
-  | nil => rfl
-  | cons x r =>
-    rw [hk] at hd hu
-    cases ha : ((x :: r).any fun k => pats.any fun g => gmatch g k) with
-    | true => exact hu ha
-    | false => simp [ha] at hd
+  rw [List.any_eq_false] at hd
+  rw [List.all_eq_true]
+  intro k hk
+  have := hd k hk
+  simpa using this
 
+theorem keys_denied_iff (keys pats : List Bytes) (gmatch : Bytes → Bytes → Bool) :
+    (keys.any fun k => !(pats.any fun g => gmatch g k)) = !(keys.all fun k => pats.any fun g => gmatch g k) := by
+  induction keys with
+  | nil => rfl
+  | cons x r ih => simp only [List.any_cons, List.all_cons, ih, Bool.not_and]
+
+/-! ### the converse bridges: from the components of the policy to the named checks of the code -/
+
+theorem catsIncluded_of (u : User) (m : CmdMeta) (h : m.cats.all (catAllowed u) = true) : catsIncluded u m = true := by
+  unfold catsIncluded
+  cases hs : u.inclCats.contains star with
+  | true => rfl
+  | false =>
+    rw [Bool.false_or, Bool.not_eq_true', List.any_eq_false]
+    intro c hc
+    rw [List.all_eq_true] at h
+    have := h c hc
+    unfold catAllowed at this
+    rw [hs, Bool.false_or, Bool.and_eq_true] at this
+    rw [this.1]; decide
+
+theorem catsExcluded_of (u : User) (m : CmdMeta) (h : m.cats.all (catAllowed u) = true) : catsExcluded u m = false := by
+  unfold catsExcluded
+  rw [List.any_eq_false]
+  intro c hc
+  rw [List.all_eq_true] at h
+  have := h c hc
+  unfold catAllowed at this
+  rw [Bool.and_eq_true] at this
+  have h2 := this.2
+  simp only [Bool.not_eq_true', Bool.or_eq_false_iff] at h2
+  rw [Bool.not_eq_true, List.any_eq_false]
+  intro e he
+  intro hc2
+  rw [Bool.or_eq_true, beq_iff_eq, beq_iff_eq] at hc2
+  rcases hc2 with rfl | rfl
+  · rw [contains_of_mem he] at h2; exact absurd h2.1 (by decide)
+  · rw [contains_of_mem he] at h2; exact absurd h2.2 (by decide)
+
+theorem cmdIncluded_of (u : User) (m : CmdMeta) (h : cmdAllowed u m.comm = true) : cmdIncluded u m = true := by
+  unfold cmdAllowed at h
+  rw [Bool.and_eq_true, Bool.or_eq_true] at h
+  unfold cmdIncluded
+  rw [List.any_eq_true]
+  rcases h.1 with h1 | h1
+  · exact ⟨star, mem_of_contains h1, by simp⟩
+  · exact ⟨m.comm, mem_of_contains h1, by simp⟩
+
+theorem cmdExcluded_of (u : User) (m : CmdMeta) (h : cmdAllowed u m.comm = true) : cmdExcluded u m = false := by
+  unfold cmdAllowed at h
+  rw [Bool.and_eq_true] at h
+  have h2 := h.2
+  simp only [Bool.not_eq_true', Bool.or_eq_false_iff] at h2
+  unfold cmdExcluded
+  rw [List.any_eq_false]
+  intro e he hc2
+  rw [Bool.or_eq_true, beq_iff_eq, beq_iff_eq] at hc2
+  rcases hc2 with rfl | rfl
+  · rw [contains_of_mem he] at h2; exact absurd h2.1 (by decide)
+  · rw [contains_of_mem he] at h2; exact absurd h2.2 (by decide)
+
+theorem chanDenied_of (gmatch : Bytes → Bytes → Bool) (u : User) (m : CmdMeta)
+    (h : (m.channels.all fun ch => (u.inclChans.any fun g => gmatch g ch) && !(u.exclChans.any fun g => gmatch g ch)) = true) :
+    chanDenied gmatch u m = false := by
+  unfold chanDenied
+  rw [List.any_eq_false]
+  rw [List.all_eq_true] at h
+  intro ch hch
+  have h1 := h ch hch
+  cases hi : (u.inclChans.any fun g => gmatch g ch) <;> cases he : (u.exclChans.any fun g => gmatch g ch) <;>
+    simp [hi, he] at h1 ⊢
+
+/-! ### SETUSER: the `off` rule, and the guards that keep the parser inside its tokens -/
+
+theorem updateTok_off (u : User) : updateTok u (b "off") = .ok { u with enabled := false } := rfl
+
+/-- whatever rules precede it, a rule list ending in `off` leaves the user disabled -/
+theorem updateToks_append_off (l : List Bytes) (u u' : User) (h : updateToks (l ++ [b "off"]) u = .ok u') :
+    u'.enabled = false := by
+  induction l generalizing u with
+  | nil =>
+    simp only [List.nil_append, updateToks, updateTok_off] at h
+    cases h; rfl
+  | cons t r ih =>
+    simp only [List.cons_append, updateToks] at h
+    cases ht : updateTok u t with
+    | ok u1 => rw [ht] at h; exact ih u1 h
+    | err m => rw [ht] at h; cases h
+    | panic => rw [ht] at h; cases h
+    | unmod => rw [ht] at h; cases h
+
+theorem foldl_enabled (f : User → Bytes → User) (hf : ∀ u s, (f u s).enabled = u.enabled) (cmd : List Bytes) (u : User) :
+    (cmd.foldl f u).enabled = u.enabled := by
+  induction cmd generalizing u with
+  | nil => rfl
+  | cons s r ih => simp only [List.foldl_cons]; rw [ih, hf]
+
+/-- the second and third loops of UpdateUser never touch Enabled -/
+theorem updateTail_enabled (cmd : List Bytes) (u : User) : (updateTail cmd u).enabled = u.enabled := by
+  unfold updateTail
+  rw [foldl_enabled, foldl_enabled]
+  · intro u s; split <;> rfl
+  · intro u s
+    simp only
+    repeat' split
+    all_goals rfl
+
+theorem ite_ne_panic {c : Prop} [Decidable c] {a b : TokRes} (ha : a ≠ .panic) (hb : b ≠ .panic) :
+    (if c then a else b) ≠ .panic := by split <;> assumption
+
+/-- a token of at least one byte is parsed without reading outside it (every later index is guarded by a length test) -/
+theorem updateTok_cons_no_panic (u : User) (c0 : UInt8) (rest : Bytes) : updateTok u (c0 :: rest) ≠ .panic := by
+  unfold updateTok
+  apply ite_ne_panic
+  · intro h; cases h
+  · dsimp only
+    repeat' apply ite_ne_panic
+    all_goals (intro h; cases h)
+
+/-- the token loop meets `str[0]` of an empty token only if the rule list holds one -/
+theorem updateToks_no_panic (cmd : List Bytes) (u : User) (h : cmd.contains [] = false) : updateToks cmd u ≠ .panic := by
+  induction cmd generalizing u with
+  | nil => simp [updateToks]
+  | cons t r ih =>
+    have hr : r.contains [] = false := by
+      cases hc : r.contains [] with
+      | false => rfl
+      | true => simp at h; exact absurd (mem_of_contains hc) h.2
+    unfold updateToks
+    cases hu : updateTok u t with
+    | ok u1 => exact ih u1 hr
+    | err m => simp
+    | unmod => simp
+    | panic =>
+      cases t with
+      | nil => simp at h
+      | cons c0 rest => exact absurd hu (updateTok_cons_no_panic u c0 rest)
+
+/-- **UpdateUser cannot index outside a token**: an empty token is refused before the loops -/
+theorem updateUser_no_panic (cmd : List Bytes) (u : User) : updateUser cmd u ≠ .panic := by
+  unfold updateUser
+  cases hc : cmd.contains [] with
+  | true => simp
+  | false =>
+    simp only [Bool.false_eq_true, if_false]
+    have := updateToks_no_panic cmd u hc
+    cases hu : updateToks cmd u with
+    | ok u1 => simp
+    | err m => simp
+    | unmod => simp
+    | panic => exact absurd hu this
+
+/-- SetUser panics only on the empty vector (cmd[0]) -/
+theorem setUser_no_panic (a : AclState) (name : Bytes) (rest : List Bytes) : (setUser a (name :: rest)).2 ≠ .panic := by
+  unfold setUser
+  simp only
+  cases a.find name with
+  | some uid =>
+    simp only
+    have := updateUser_no_panic (name :: rest) (a.get uid)
+    cases hu : updateUser (name :: rest) (a.get uid) with
+    | ok u1 => simp
+    | err m => simp
+    | unmod => simp
+    | panic => exact absurd hu this
+  | none =>
+    simp only
+    have := updateUser_no_panic (name :: rest) (createUser name)
+    cases hu : updateUser (name :: rest) (createUser name) with
+    | ok u1 => simp
+    | err m => simp
+    | unmod => simp
+    | panic => exact absurd hu this
+
+/-- SETUSER on an existing user with a rule list ending in `off` leaves that user object disabled -/
+theorem setUser_off_disables (a : AclState) (name : Bytes) (rules : List Bytes) (uid : Nat)
+    (hf : a.find name = some uid) (hok : (setUser a (name :: (rules ++ [b "off"]))).2 = .ok) :
+    ((setUser a (name :: (rules ++ [b "off"]))).1.get uid).enabled = false := by
+  unfold setUser at hok ⊢
+  simp only [hf] at hok ⊢
+  cases hu : updateUser (name :: (rules ++ [b "off"])) (a.get uid) with
+  | ok u1 =>
+    simp only [AclState.get, NMap.get_put_same, Option.getD_some]
+    unfold updateUser at hu
+    split at hu
+    · cases hu
+    · cases ht : updateToks (name :: (rules ++ [b "off"])) (a.get uid) with
+      | ok u2 =>
+        rw [ht] at hu
+        simp only [TokRes.ok.injEq] at hu
+        rw [← hu, updateTail_enabled]
+        exact updateToks_append_off (name :: rules) (a.get uid) u2 ht
+      | err m => rw [ht] at hu; cases hu
+      | panic => rw [ht] at hu; cases hu
+      | unmod => rw [ht] at hu; cases hu
+  | err m => rw [hu] at hok; cases hok
+  | panic => rw [hu] at hok; cases hok
+  | unmod => rw [hu] at hok; cases hok
+
+/-- **ACL SETUSER cannot take the server down**: whatever the argument vector -/
+theorem aclHandler_setuser_no_panic (a : AclState) (cid : Nat) (cmd : List Bytes) (sha : Bytes)
+    (h1 : toLower (cmd.headD []) = b "acl") (h2 : toLower (cmd.getD 1 []) = b "setuser") :
+    (aclHandler a cid cmd sha).2 ≠ .panic := by
+  unfold aclHandler
+  simp only [h1, h2]
+  have e1 : (b "acl" == b "auth") = false := by decide
+  have e2 : (b "acl" == b "acl") = true := by decide
+  have e3 : (b "setuser" == b "setuser") = true := by decide
+  simp only [e1, e2, e3, Bool.false_eq_true, if_false, Bool.and_self, if_true]
+  split
+  · intro h; cases h
+  · rename_i hl
+    match cmd, hl with
+    | c0 :: c1 :: name :: rest, _ =>
+      simp only [List.drop_succ_cons, List.drop_zero]
+      have := setUser_no_panic a name rest
+      cases hs : setUser a (name :: rest) with
+      | mk a' o =>
+        rw [hs] at this
+        cases o with
+        | ok => simp
+        | err m => simp
+        | panic => exact absurd rfl this
+        | unmod => simp
+    | [], hl => simp at hl
+    | [_], hl => simp at hl
+    | [_, _], hl => simp at hl
 end Sugar.Acl
